@@ -148,6 +148,8 @@ def handle : List String → String
     | some m, some q => showBool (safe m (build q))
     | _, _ => "bad-op"
   | ["parse", h] => C16Chars.handleParse h
+  | ["parsel", h] => C16Chars.handleParseLenient h
+  | ["parse2", h] => C16Chars.handleParseBoth h
   | _ => "bad-op"
 
 end TantivyModel.Driver.C16
